@@ -44,10 +44,20 @@ func getRamainsSum(states *[]types.State) sdk.DecCoins {
 
 func (k Keeper) PrepareCoinsToDistribute(sources []*types.Account, ctx sdk.Context, states []types.State, subDistributorName string) sdk.DecCoins {
 	allCoinsToDistribute := sdk.NewDecCoins()
+	// The main source's inflow is "main balance - all remains". It has to be taken before any other
+	// source of this subdistributor is swept into the main account (or has its remains re-queued),
+	// otherwise those coins are counted twice.
+	var mainCoinsToDistribute sdk.DecCoins
+	for _, source := range sources {
+		if source.Type == types.Main {
+			mainCoinsToDistribute = k.prepareCoinToDistributeForMainAccount(ctx, states, subDistributorName)
+			break
+		}
+	}
 	for _, source := range sources {
 		var coinsToDistribute sdk.DecCoins
 		if source.Type == types.Main {
-			coinsToDistribute = k.prepareCoinToDistributeForMainAccount(ctx, states, subDistributorName)
+			coinsToDistribute = mainCoinsToDistribute
 		} else {
 			coinsToDistribute = k.prepareCoinToDistributeForNotMainAccount(ctx, *source, states, subDistributorName)
 		}
